@@ -38,7 +38,9 @@ class PEnv:
 
         def exists(f, lo=0, hi=None):
             return z3.Or([f(i) for i in range(lo, (n if hi is None else hi))] or [z3.BoolVal(False)])
-        return {"t": t, "K": KK, "n": n, "exists": exists}
+        def anyof(x, names):
+            return z3.Or([x == getattr(KK, nm) for nm in names.split()])
+        return {"t": t, "K": KK, "n": n, "exists": exists, "anyof": anyof}
 
 
 class ParserHarness:
